@@ -46,7 +46,9 @@ def prog_brief(p):
             s += "/m%d" % o["p"]
         if o["op"] == "trylock" and o["p"]:
             s += "?"
-        if o["op"] in ("acqt", "cvwaitfor", "sleep", "put", "puta", "putd", "exec", "execa", "waitfor", "join", "killtime"):
+        if o["op"] in ("sendt", "recvf"):
+            s += "#%d" % o["p"]
+        if o["op"] in ("acqt", "cvwaitfor", "sleep", "put", "puta", "putd", "exec", "execa", "waitfor", "join", "killtime", "sendt"):
             s += "@%d" % o["t"]
         return s
     return {"rec": p["rec"], "cap": p["cap"], "ncv": p["ncv"], "bar": p["bar"], "perm": p.get("perm", []),
@@ -60,7 +62,7 @@ def shared_objects(p):
         for o in a:
             kind = {"lock": "m", "trylock": "m", "unlock": "m", "acq": "s", "acqt": "s", "rel": "s", "cvwait": "c",
                     "cvwaitfor": "c", "sig": "c", "bcast": "c", "bar": "b", "put": "x", "puta": "x", "putd": "x",
-                    "get": "x", "geta": "x", "mput": "q", "mputa": "q", "mget": "q", "mgeta": "q"}.get(o["op"])
+                    "get": "x", "geta": "x", "sendt": "x", "recvf": "x", "mput": "q", "mputa": "q", "mget": "q", "mgeta": "q"}.get(o["op"])
             if kind:
                 seen.setdefault((kind, o["o"]), set()).add(i)
                 if kind == "c":
